@@ -198,7 +198,7 @@ func c15Scenario(p c15Params) *explore.Scenario {
 func init() {
 	Register(&Prop{
 		ID:   "C15",
-		Rule: "two consecutive events of each line shape {PING, tagged PRIVMSG, 0/1/2/15 arguments, CTCP, JOIN with tracking} delivered to 1-3 foreground and 0-2 background handlers (and, for five shapes, two more handlers registered in the internal set next to the built-in ones); every handler records a deep image at entry, edits every argument, tag and field with handler-unique values, and re-reads after yielding; every execution within the deviation budgets; distinct = distinct canonical observation per scenario",
+		Rule: "two consecutive events of each line shape {PING, tagged PRIVMSG, 0/1/2/15 arguments, CTCP, JOIN with tracking} delivered to 1-3 foreground and 0-2 background handlers (two shapes also to 10 and 17 foreground / 9 background handlers; and, for five shapes, two more handlers registered in the internal set next to the built-in ones); every handler records a deep image at entry, edits every argument, tag and field with handler-unique values, and re-reads after yielding; every execution within the deviation budgets; distinct = distinct canonical observation per scenario",
 		Assumptions: []string{
 			"interleavings at synchronisation/channel/socket granularity plus explicit yields inside handlers (DESIGN.md 3.8)",
 			"'equal to the parsed event' is judged against ParseLine of the wire text (C01 judges the parser itself)",
@@ -225,6 +225,13 @@ func init() {
 						spec.CrossChk = &explore.Budget{K: 2}
 					}
 					jobs = append(jobs, ExploreJob("C15", spec, 10*(h.fg+h.bg)))
+				}
+			}
+			// many handlers in one set (more than any fixed-size worker pool or buffer a dispatcher might use)
+			for _, sh := range []string{"tags", "noargs"} {
+				for _, h := range []hc{{10, 0}, {1, 9}, {17, 0}} {
+					spec := ExploreSpec{Sc: c15Scenario(c15Params{Shape: sh, FG: h.fg, BG: h.bg}), Variants: []int{1, 2, 3}, Budgets: []explore.Budget{{0, 0}, {1, 0}}, Cache: true}
+					jobs = append(jobs, ExploreJob("C15", spec, 60))
 				}
 			}
 			// extra handlers in the internal set (next to the built-in ones), which edit their lines like the others
